@@ -3,7 +3,8 @@
 /repo/include and record the result in seeded/<id>/meta.json:
   check_result          what reports the change now (own property's check first, then any other check),
   first_run_result      what the checks reported the first time the change was run (kept once, never overwritten),
-  expect_on_current_tree  'silent' for a change that is benign on the repaired tree (kept by hand; then silence is required).
+  expect_on_current_tree  'silent' for a change that is benign on the repaired tree (kept by hand; then silence is required);
+                          'analysis-broken' for a change the own check answers with exit 2 (kept by hand, reason in history).
 usage: seedrecheck.py [--only C13] [--jobs 8] [--own-only]
 Exit 1 when a change that should be reported is not reported by the check of its own property."""
 import argparse, glob, json, os, shutil, subprocess, sys, tempfile
@@ -56,7 +57,10 @@ def main():
             silent_ok = meta.get("expect_on_current_tree") == "silent"
             own = hits.get(prop, [])
             others = {k: v for k, v in hits.items() if k != prop}
-            if silent_ok:
+            if meta.get("expect_on_current_tree") == "analysis-broken":
+                ok = prop in broken and not own
+                now = "not decided: the %s check ends ANALYSIS-BROKEN (exit 2, never a pass) — the change swaps an anchored construct for one the analysis does not decide" % prop
+            elif silent_ok:
                 ok = not hits
                 now = "silent on the repaired tree (as expected: %s)" % meta.get("history", "")
             else:
